@@ -210,9 +210,11 @@ class VariantJob:
             # against the reference at seeded points of the case's precondition, results representable) exhibits a failing input
             suffix = f"{{{label}}}" if label else ""
             rng = random.Random(hash((SEED, self.base_id, label)) & 0xFFFFFFFF)
-            for env in self.sample_points(ctx, rng, max(NPOINTS, 16)):
+            envs = self.sample_points(ctx, rng, max(NPOINTS, 16))
+            turns = [(e_, (1, -2)) for e_ in envs[:4]] if (self.prop in ("C01", "C02") and self.modname != "phi" and any(v[0] is AzimuthalRhoPhi for v in self.vs)) else []
+            for env, pt in [(e_, None) for e_ in envs] + turns:
                 res["refuter_points"] += 1
-                bad = self.refute_at(ctx, env, None, None, scalar_result, None, need_representable=True)
+                bad = self.refute_at(ctx, env, None, None, scalar_result, None, need_representable=True, phi_turns=pt)
                 if bad is not None:
                     bad["note"] = f"symbolic execution left the verifiable subset ({e}); found by the numeric refuter"
                     res["obligations"].append(dict(id=f"{self.base_id}{suffix}/refuter", kind="refuter", status="refuted",
@@ -291,6 +293,16 @@ class VariantJob:
                                                by="numeric evaluation of the real function (mpmath 60 digits)", t=0,
                                                counterexample=bad))
                 return "refuted"
+        # ---- periodicity stratum (BOUNDED): the same points with whole turns added to the stored azimuths - the definitions hold for every finite stored phi
+        if self.prop in ("C01", "C02") and self.modname != "phi" and any(v[0] is AzimuthalRhoPhi for v in self.vs):
+            for env in pts[:2]:
+                res["refuter_points"] += 1
+                bad = self.refute_at(ctx, env, got, ref, scalar_result, None, phi_turns=(1, -2))
+                if bad is not None:
+                    bad["note"] = "stored azimuths shifted by whole turns (+1, -2): outside the principal range, same vectors"
+                    res["obligations"].append(dict(id=f"{self.base_id}{suffix}/refuter", kind="refuter", status="refuted",
+                                                   by="numeric evaluation of the real function (mpmath 60 digits)", t=0, counterexample=bad))
+                    return "refuted"
         # ---- definedness obligations
         seen = set()
         for i, (desc, f) in enumerate(ctx.defs):
@@ -404,11 +416,17 @@ class VariantJob:
         vec = list(it)
         return args, vec
 
-    def refute_at(self, ctx, env, got, ref, scalar_result, res=None, need_representable=False):
-        """run the real function and the reference on concrete numbers; returns a counterexample dict or None"""
+    def refute_at(self, ctx, env, got, ref, scalar_result, res=None, need_representable=False, phi_turns=None):
+        """run the real function and the reference on concrete numbers; returns a counterexample dict or None.
+        phi_turns: whole turns added to the stored azimuth of the polar operands (a stored phi outside (-pi, pi] denotes the same vector)"""
         m = mp()
         try:
             sargs, vec = self.concrete_args(ctx, env)
+            if phi_turns:
+                vec = [list(c) for c in vec]
+                for i, v in enumerate(self.vs):
+                    if v[0] is AzimuthalRhoPhi:
+                        vec[i][1] = vec[i][1] + 2 * m.pi * phi_turns[i % len(phi_turns)]
             flat = [c for v in vec for c in v]
             nviews = [num_view(v, c) for v, c in zip(self.vs, vec)]
             r_got = NL.run_real(self.fn, sargs + flat)
